@@ -12,6 +12,15 @@ import zlib
 import vlib
 
 PROPS = "Properties_C16"
+# leaf functions / constants of environment_posix.c are re-translated from the C source on every run (tools/translate_leaf.py ->
+# coq/gen/Leaf.v, Constants.v) and re-proved equal to the model's (coq/Properties_leaf_env.v)
+EXTRA_PROPS = ["Properties_leaf_env"]
+
+
+def REGEN(ctx):
+    vlib.regen_leaf(ctx, ["Env"])
+
+
 RULE = ("every string over {$,~,/,:,A,_,a,{,}} up to length 4 (quick) / 6 (thorough) under 3 environments "
         "(length 6: one of the 3; thorough also length 7 over {$,~,/,:,A,_,a} and length 8 over {$,~,/,A}), every byte 1..255 around '$' and '~', seeded random longer strings and random "
         "environments (set/unset/empty, values with '$' and '~', HOME set/unset/empty, null environ, names that are "
